@@ -2096,3 +2096,58 @@ Proof.
          (tup_s [ty_only [TString]; ty_only [TString]] None None None).
   eexists. exists (JArr [JStr [97%N]]). vm_compute. repeat split.
 Qed.
+
+(* ---- the fragment lies inside the complement of the F1 class: [tx] does not occur, so `integer` and `number`
+   cannot both occur in a pair of fragment schemas *)
+Lemma obj_frag_not_uses wa tm tx : forall s, obj_frag wa tm tx s = true -> uses_type tx s = false.
+Proof.
+  induction s as [b|ty fmt enum cst nv sv ik items ai mni mxi uq props req ap mnp mxp allo anyo oneo no ref d t
+                    IHi IHai IHp IHap IHal IHan IHon IHno] using schema_ind'; [reflexivity|].
+  intros H. cbn [obj_frag] in H.
+  repeat match goal with
+         | Hx : _ && _ = true |- _ => apply andb_true_iff in Hx; destruct Hx
+         end.
+  destruct anyo; [simpl in *; congruence|].
+  destruct oneo; [simpl in *; congruence|].
+  destruct no; [simpl in *; congruence|].
+  cbn [uses_type].
+  assert (Hty : match ty with Some l => mem_ty tx l | None => false end = false).
+  { destruct ty as [l|]; [|reflexivity]. apply not_true_is_false. intros C. apply mem_ty_In in C.
+    match goal with Hn : notype tx (Some l) = true |- _ =>
+      unfold notype, opt_all in Hn; rewrite forallb_forall in Hn; specialize (Hn _ C);
+      rewrite itype_eqb_refl in Hn; discriminate Hn end. }
+  rewrite Hty.
+  assert (Hi : existsb (uses_type tx) items = false).
+  { apply not_true_is_false. intros C. apply existsb_exists in C. destruct C as [x [Hin Hx]].
+    rewrite Forall_forall in IHi.
+    match goal with Hf : forallb (obj_frag wa tm tx) items = true |- _ =>
+      rewrite forallb_forall in Hf; rewrite (IHi x Hin (Hf x Hin)) in Hx; discriminate Hx end. }
+  rewrite Hi.
+  assert (Hai : match ai with Some x => uses_type tx x | None => false end = false).
+  { destruct ai as [a|]; [|reflexivity]. simpl in *. apply IHai. assumption. }
+  rewrite Hai.
+  assert (Hp : existsb (fun kv => uses_type tx (snd kv)) props = false).
+  { apply not_true_is_false. intros C. apply existsb_exists in C. destruct C as [kv [Hin Hx]].
+    rewrite Forall_forall in IHp.
+    match goal with Hf : forallb (fun kv => obj_frag wa tm tx (snd kv)) props = true |- _ =>
+      rewrite forallb_forall in Hf; rewrite (IHp kv Hin (Hf kv Hin)) in Hx; discriminate Hx end. }
+  rewrite Hp.
+  assert (Hap : match ap with Some x => uses_type tx x | None => false end = false).
+  { destruct ap as [a|]; [|reflexivity]. simpl in *. apply IHap. assumption. }
+  rewrite Hap.
+  assert (Hal : match allo with Some l => existsb (uses_type tx) l | None => false end = false).
+  { destruct allo as [l|]; [|reflexivity]. simpl in *.
+    apply not_true_is_false. intros C. apply existsb_exists in C. destruct C as [x [Hin Hx]].
+    rewrite Forall_forall in IHal.
+    match goal with Hf : forallb (obj_frag wa tm tx) l = true |- _ =>
+      rewrite forallb_forall in Hf; rewrite (IHal x Hin (Hf x Hin)) in Hx; discriminate Hx end. }
+  rewrite Hal. reflexivity.
+Qed.
+
+Theorem obj_frag_not_Known_F1 wa tm tx a b :
+  tx_ok tx -> obj_frag wa tm tx a = true -> obj_frag wa tm tx b = true -> Known_F1 a b = false.
+Proof.
+  intros [->| ->] Fa Fb; unfold Known_F1;
+    rewrite (obj_frag_not_uses _ _ _ a Fa), (obj_frag_not_uses _ _ _ b Fb); simpl;
+    [apply andb_false_r | reflexivity].
+Qed.
